@@ -124,6 +124,10 @@ class Sim:
         self._draw_n = {}
         self.in_advance = False
 
+    def __reduce__(self):
+        # the tuner dill-pickles itself (Tuner.save); the simulator is not part of the system under test
+        return (Sim, ("pickled-stub",))
+
     # -- randomness -------------------------------------------------------
     def draw(self, tag):
         n = self._draw_n.get(tag, 0)
